@@ -286,6 +286,18 @@ def run(ctx):
     ctx.coverage["oracle_pattern_shorthand_pairs"] = psh
     ctx.coverage["oracle_relative_labels"] = rel_checked
     ctx.coverage["oracle_shorthand_pairs"] = sh_checked
+    # (6) labels that grog itself prints (`grog list`) for BUILD files it accepts must re-parse to themselves
+    cli_labels = cli_printed_labels(ctx)
+    if cli_labels is not None:
+        preqs = [{"op": "label.parse", "cur": "", "s": l} for l in cli_labels]
+        pout = ctx.impl(preqs) if preqs else []
+        for r, x in zip(preqs, pout):
+            if not x.get("ok") or x.get("str") != r["s"]:
+                oracle_fail += 1
+                ctx.violation("`grog list` prints a label for a target it loaded that the label parser rejects (or parses to a different label)",
+                              {"kind": "oracle", "oracle": "printed labels re-parse (CLI)", "printed": r["s"], "reparse": x},
+                              signature="printed-label-does-not-reparse:loader-accepted-name")
+        ctx.coverage["oracle_cli_printed_labels"] = len(cli_labels)
     ctx.coverage["oracle_roundtrips"] = len(rt_reqs)
     ctx.coverage["oracle_reference_patterns"] = ref_checked
     ctx.coverage["oracle_failures"] = oracle_fail
@@ -296,6 +308,44 @@ def run(ctx):
         ctx.violation("model and implementation disagree (correspondence label/pattern parser)",
                       {"kind": "correspondence", "correspondence": "label.parse / pattern.parse vs GrogModel.Label",
                        "request": strip(r), "impl": x, "model": y, "n_disagreements": len(bad)}, found_input=False)
+
+
+NAME_DICT = ["ok", "a-b_c.d", "A9", "a b", "x:y", "a/b", "...", "..", "é", "tab\tname", "-", "_", ".a", "a.", "all", "x" * 70, "q?", "star*", "semi;colon", "'q'", "a\\b", "test"]
+
+
+def cli_printed_labels(ctx):
+    """one package per candidate name; returns the labels printed by `grog list //...` in the packages that load"""
+    import json as _json, os, subprocess
+    grog = ctx.grog_binary()
+    if not grog:
+        return None
+    base = ctx.scratch("names")
+    ws = os.path.join(base, "ws")
+    os.makedirs(ws, exist_ok=True)
+    open(os.path.join(ws, "grog.toml"), "w").write("")
+    env = {k: v for k, v in os.environ.items() if not k.startswith("GROG_")}
+    env.update({"GROG_ROOT": os.path.join(base, "root"), "HOME": os.path.join(base, "root"), "NO_COLOR": "1"})
+    labels, loaded = [], 0
+    for i, nm in enumerate(NAME_DICT):
+        for kind in ("target", "alias"):
+            pk = os.path.join(ws, "p%d%s" % (i, kind[0]))
+            os.makedirs(pk, exist_ok=True)
+            dto = {"targets": [{"name": "base", "command": "true"}]}
+            if kind == "target":
+                dto["targets"].append({"name": nm, "command": "true"})
+            else:
+                dto["aliases"] = [{"name": nm, "actual": ":base"}]
+            open(os.path.join(pk, "BUILD.json"), "w").write(_json.dumps(dto))
+            try:
+                p = subprocess.run([grog, "list", "//p%d%s/..." % (i, kind[0])], cwd=ws, env=env, capture_output=True, text=True, timeout=60)
+            except subprocess.TimeoutExpired:
+                continue
+            os.remove(os.path.join(pk, "BUILD.json"))      # keep later loads independent of this package
+            if p.returncode == 0:
+                loaded += 1
+                labels += [l for l in p.stdout.split("\n") if l.startswith("//")]
+    ctx.coverage["cli_name_packages_loaded"] = loaded
+    return labels
 
 
 def strip(r):
